@@ -434,10 +434,15 @@ void PedersenCommitmentScheme::CommitBy
 bool PedersenCommitmentScheme::TestMembership
 	(mpz_srcptr c) const
 {
-	if ((mpz_cmp_ui(c, 0L) > 0) && (mpz_cmp(c, p) < 0))
-		return true;
-	else
+	if ((mpz_cmp_ui(c, 0L) <= 0) || (mpz_cmp(c, p) >= 0))
 		return false;
+	// a commitment is an element of the subgroup of order $q$
+	mpz_t tmp;
+	mpz_init(tmp);
+	mpz_powm(tmp, c, q, p);
+	bool member = (mpz_cmp_ui(tmp, 1L) == 0);
+	mpz_clear(tmp);
+	return member;
 }
 
 bool PedersenCommitmentScheme::Verify
